@@ -106,10 +106,12 @@ func TestGovcEmbedReplay(t *testing.T) {
 	evals, nontrivial := 0, 0
 	var byExpect [3]int
 	withPlaceholder := 0
+	degEvals, degNoID, degWithPlaceholder := 0, 0, 0
 	defer func() {
 		fmt.Printf("GOVC-INFO embed cases: must=%d may=%d forbidden=%d, cases with a placeholder in the result=%d\n", byExpect[govcC19Must], byExpect[govcC19May], byExpect[govcC19Forbid], withPlaceholder)
+		fmt.Printf("GOVC-INFO embed degenerate-URL cases: %d (of which %d carry no id at all), with a placeholder in the result=%d\n", degEvals, degNoID, degWithPlaceholder)
 		fmt.Printf("GOVC-CASES evaluations=%d distinct_nontrivial=%d rule=%s\n", evals, nontrivial,
-			"36 hosts (8 allow-listed, 3 unusual spellings, 25 look-alike/userinfo/path/query/fragment tricks) x {https,http,//} x {iframe with the natural path shape, object data= and object param movie (YouTube-like hosts), blockquote.twitter-tweet (Twitter-like hosts)}, plus for https: iframe x the other 5 path shapes and iframe x {data-src, data-lazy-src, data-src same service} holding the opposite kind of URL; unique id per case, one frame between long paragraphs; non-trivial = both neighbouring paragraphs retained in Result.Text")
+			"(a) 36 hosts (8 allow-listed, 3 unusual spellings, 25 look-alike/userinfo/path/query/fragment tricks) x {https,http,//} x {iframe with the natural path shape, object data= and object param movie (YouTube-like hosts), blockquote.twitter-tweet (Twitter-like hosts)}, plus for https: iframe x the other 5 path shapes and iframe x {data-src, data-lazy-src, data-src same service} holding the opposite kind of URL; (b) degenerate URLs on 6 allow-listed hosts x {https,http,//} x {iframe without and with data-tweet-id, object data= / param movie (YouTube), blockquote.twitter-tweet (Twitter)} x URL remainders {empty, /, //, ///, only a query, /+query, only a fragment, /+fragment, blank segment, the service keyword (embed, v, video, status) without id in 4-5 spellings} where no id exists, and {id/, id//, id/blank, id/?query, id#fragment, doubled slashes} where it does; unique id per case, one frame between long paragraphs; non-trivial = both neighbouring paragraphs retained in Result.Text")
 	}()
 
 	schemes := []struct{ key, prefix string }{{"https", "https://"}, {"http", "http://"}, {"rel", "//"}}
@@ -273,6 +275,181 @@ func TestGovcEmbedReplay(t *testing.T) {
 							}
 							if !inside {
 								t.Errorf("GOVC-FAIL %s/outside :: embed: <%s> outside the placeholder in the distilled HTML: %s", key, dom.TagName(n), frame)
+							}
+						}
+					}
+				}
+			}
+		}
+	}
+	// ---- (b) degenerate URLs on allow-listed hosts ----
+	// The host IS allow-listed, but the URL is not of the documented shape. The property says that the
+	// placeholder's data-id is "the video/tweet id taken from the URL": an id is a non-empty string of id
+	// characters that occurs in the URL as a path section (for a rendered tweet iframe: the data-tweet-id
+	// attribute). So: when the URL (and the attribute) carry no id, there is no placeholder, and the frame is
+	// dropped like any other iframe; when they carry one, a placeholder, if produced, has exactly that id.
+	type degTail struct {
+		key, service string                 // service "" = every service
+		tail         func(id string) string // what follows the host
+		hasID        bool
+	}
+	constTail := func(s string) func(string) string { return func(string) string { return s } }
+	tails := []degTail{
+		{"empty", "", constTail(""), false},
+		{"slash", "", constTail("/"), false},
+		{"slash2", "", constTail("//"), false},
+		{"slash3", "", constTail("///"), false},
+		{"query-only", "", constTail("?feature=player_embedded"), false},
+		{"slash-query", "", constTail("/?rel=0&autoplay=1"), false},
+		{"fragment-only", "", constTail("#t=30"), false},
+		{"slash-fragment", "", constTail("/#start"), false},
+		{"blank-segment", "", constTail("/%20"), false},
+		{"blank-segment-slash", "", constTail("/%20/"), false},
+		{"kw-embed", "youtube", constTail("/embed"), false},
+		{"kw-embed-slash", "youtube", constTail("/embed/"), false},
+		{"kw-embed-slash2", "youtube", constTail("/embed//"), false},
+		{"kw-embed-query", "youtube", constTail("/embed/?rel=0"), false},
+		{"kw-embed-fragment", "youtube", constTail("/embed/#t=1"), false},
+		{"kw-v-slash", "youtube", constTail("/v/"), false},
+		{"kw-v", "youtube", constTail("/v"), false},
+		{"kw-video", "vimeo", constTail("/video"), false},
+		{"kw-video-slash", "vimeo", constTail("/video/"), false},
+		{"kw-video-slash2", "vimeo", constTail("/video//"), false},
+		{"kw-video-query", "vimeo", constTail("/video/?title=0"), false},
+		{"kw-status-slash", "twitter", constTail("/someuser/status/"), false},
+		{"kw-status", "twitter", constTail("/someuser/status"), false},
+		{"id-slash", "", nil, true},
+		{"id-slash2", "", nil, true},
+		{"id-blank", "", nil, true},
+		{"id-slash-query", "", nil, true},
+		{"id-fragment", "", nil, true},
+		{"id-doubled-slashes", "", nil, true},
+	}
+	idTail := map[string]func(prefix, id string) string{
+		"id-slash":           func(p, id string) string { return p + id + "/" },
+		"id-slash2":          func(p, id string) string { return p + id + "//" },
+		"id-blank":           func(p, id string) string { return p + id + "/%20" },
+		"id-slash-query":     func(p, id string) string { return p + id + "/?rel=0" },
+		"id-fragment":        func(p, id string) string { return p + id + "#t=30" },
+		"id-doubled-slashes": func(p, id string) string { return strings.ReplaceAll(p, "/", "//") + id },
+	}
+	idPrefix := map[string]string{"youtube": "/embed/", "vimeo": "/video/", "twitter": "/someuser/status/"}
+	degHosts := []struct{ host, service string }{
+		{"youtube.com", "youtube"}, {"www.youtube.com", "youtube"}, {"www.youtube-nocookie.com", "youtube"},
+		{"player.vimeo.com", "vimeo"}, {"twitter.com", "twitter"}, {"platform.twitter.com", "twitter"},
+	}
+	degElements := map[string][]string{
+		"youtube": {"iframe", "iframe+tweetid", "object-data", "object-param"},
+		"vimeo":   {"iframe", "iframe+tweetid"},
+		"twitter": {"iframe", "iframe+tweetid", "blockquote"},
+	}
+	isID := func(s string) bool {
+		if s == "" {
+			return false
+		}
+		for _, r := range s {
+			if !(r >= 'a' && r <= 'z' || r >= 'A' && r <= 'Z' || r >= '0' && r <= '9' || r == '_' || r == '-') {
+				return false
+			}
+		}
+		return true
+	}
+	dseq := 0
+	for _, h := range degHosts {
+		for _, sc := range schemes {
+			for _, el := range degElements[h.service] {
+				for _, tl := range tails {
+					if tl.service != "" && tl.service != h.service {
+						continue
+					}
+					dseq++
+					id := fmt.Sprintf("Dg%05dk", dseq)
+					tweet := fmt.Sprintf("Tw%05dx", dseq)
+					var rest string
+					if tl.hasID {
+						rest = idTail[tl.key](idPrefix[h.service], id)
+					} else {
+						rest = tl.tail(id)
+					}
+					url := sc.prefix + h.host + rest
+					key := fmt.Sprintf("degenerate/%s/%s/%s/%s", h.host, sc.key, el, tl.key)
+
+					var frame string
+					switch el {
+					case "iframe":
+						frame = `<iframe width="560" height="315" src="` + url + `" frameborder="0" allowfullscreen></iframe>`
+					case "iframe+tweetid":
+						frame = `<iframe width="560" height="315" src="` + url + `" data-tweet-id="` + tweet + `" frameborder="0" allowfullscreen></iframe>`
+					case "object-data":
+						frame = `<object width="560" height="315" type="application/x-shockwave-flash" data="` + url + `"><param name="allowFullScreen" value="true"></object>`
+					case "object-param":
+						frame = `<object width="560" height="315"><param name="movie" value="` + url + `"><param name="allowFullScreen" value="true"><embed src="` + url + `" type="application/x-shockwave-flash" width="560" height="315"></object>`
+					case "blockquote":
+						frame = `<blockquote class="twitter-tweet"><p>Announcement of the day</p>&mdash; Some User (@someuser) <a href="` + url + `">June 1, 2020</a></blockquote>`
+					}
+
+					// the ids a placeholder may carry
+					allowed := map[string]bool{}
+					if tl.hasID {
+						allowed[id] = true
+					}
+					if el == "iframe+tweetid" && h.service == "twitter" {
+						allowed[tweet] = true
+					}
+
+					src := `<html><head><title>Regional water supply report</title></head><body><div id="story">` +
+						govcC19Para("alphafirst") + govcC19Para("alphasecond") + frame + govcC19Para("omegafirst") + govcC19Para("omegasecond") +
+						`</div></body></html>`
+					res, err := ApplyForReader(strings.NewReader(src), nil)
+					evals++
+					degEvals++
+					if len(allowed) == 0 {
+						degNoID++
+					}
+					if err != nil {
+						t.Errorf("GOVC-FAIL %s :: embed case returned error %v", key, err)
+						continue
+					}
+					if strings.Contains(res.Text, "alphasecond") && strings.Contains(res.Text, "omegafirst") {
+						nontrivial++
+					}
+					placeholders := dom.QuerySelectorAll(res.Node, "div.embed-placeholder")
+					var frames []string
+					for _, n := range dom.QuerySelectorAll(res.Node, "iframe,object,embed,param") {
+						frames = append(frames, dom.TagName(n))
+					}
+					if len(placeholders) > 0 {
+						degWithPlaceholder++
+					}
+					if len(placeholders) > 1 {
+						t.Errorf("GOVC-FAIL %s/count :: embed: %d placeholders for one frame: %s", key, len(placeholders), frame)
+					}
+					for _, p := range placeholders {
+						gotType, gotID := govcC19Attr(p, "data-type"), govcC19Attr(p, "data-id")
+						switch {
+						case !isID(gotID):
+							t.Errorf("GOVC-FAIL %s/non-id :: embed placeholder (data-type %q) has data-id %q, which is not an id at all; the property demands the video/tweet id taken from the URL, and a frame without one is absent: %s", key, gotType, gotID, frame)
+						case len(allowed) == 0:
+							t.Errorf("GOVC-FAIL %s/no-id-in-url :: embed placeholder (data-type %q, data-id %q) for a frame whose URL carries no video/tweet id; such a frame must be absent: %s", key, gotType, gotID, frame)
+						case !allowed[gotID]:
+							t.Errorf("GOVC-FAIL %s/id :: embed placeholder has data-id %q, the id in the URL is %q: %s", key, gotID, id, frame)
+						}
+						if gotType != h.service {
+							t.Errorf("GOVC-FAIL %s/type :: embed placeholder has data-type %q, the host belongs to %q: %s", key, gotType, h.service, frame)
+						}
+					}
+					if el != "blockquote" {
+						for _, n := range dom.QuerySelectorAll(res.Node, "iframe,object,embed") {
+							inside := false
+							for a := n.Parent; a != nil; a = a.Parent {
+								for _, p := range placeholders {
+									if a == p {
+										inside = true
+									}
+								}
+							}
+							if !inside {
+								t.Errorf("GOVC-FAIL %s/bare-frame :: embed: <%s> outside a placeholder in the distilled HTML (frames %v): %s", key, dom.TagName(n), frames, frame)
 							}
 						}
 					}
